@@ -273,7 +273,7 @@ def ddmin_text(text, still_fails, budget=1500):
     return text
 
 
-def run_fuzz(acc, target, corpus, seed, runs, max_len, check, decode, label, dictionary=()):
+def run_fuzz(acc, target, corpus, seed, runs, max_len, check, decode, label, dictionary=(), text_key='text'):
     """one libFuzzer campaign in a child process; corpus: list of bytes (may be empty).  Every violation signature found is
     minimised (ddmin on the text, same signature) and recorded through acc like any other violation."""
     import shutil
@@ -322,8 +322,8 @@ def run_fuzz(acc, target, corpus, seed, runs, max_len, check, decode, label, dic
         case = ent['case']
         if not acc.is_known(sig):
             def still(t, case=case, sig=sig):
-                return any(s2 == sig for s2, _ in check(dict(case, text=t)))
-            case = dict(case, text=ddmin_text(case['text'], still))
+                return any(s2 == sig for s2, _ in check(dict(case, **{text_key: t})))
+            case = dict(case, **{text_key: ddmin_text(case[text_key], still)})
         detail = ent['detail']
         for s2, d2 in check(case):
             if s2 == sig:
